@@ -35,6 +35,11 @@ func genC15(seed uint64, tier string) *world.Scenario {
 	if kind != "hwmon" {
 		f.Driver.NoEnable = true
 	}
+	if kernel.NewRand(seed, "c15.notach").Bool(0.2) {
+		// a fan (or pump) whose tachometer input exists but reads 0 whatever the PWM value (no tach wire, a hub
+		// in between): its stored RPM curve holds nothing but zeroes - stored data like any other
+		f.Plant.NeverSpin, f.Plant.InitRpm, f.Plant.MinRpm = true, 0, 0
+	}
 	cfgMap := r.Bool(0.3)
 	if cfgMap {
 		m := map[int]int{}
@@ -73,7 +78,7 @@ func genC15(seed uint64, tier string) *world.Scenario {
 		ops = append(ops, "start")
 	}
 	sc.Notes = strings.Join(ops, ",")
-	sc.Variant = fmt.Sprintf("%s map=%v limits=%v", kind, cfgMap, cfgLimits)
+	sc.Variant = fmt.Sprintf("%s map=%v limits=%v tach-signal=%v", kind, cfgMap, cfgLimits, !f.Plant.NeverSpin)
 	sc.Horizon = sec(120)
 	return sc
 }
